@@ -7,5 +7,6 @@ cp gen/*.ml gen/*.mli conv.ml framework.ml h_*.ml _build/
 cd _build
 ORDER=$(ocamlfind ocamldep -sort *.mli *.ml)
 cp ../driver.ml .
+rm -f ../driver
 ocamlfind ocamlopt -O3 -w -a -o ../driver $ORDER driver.ml 2>&1 | grep -v "options -O3" || true
 test -x ../driver
